@@ -18,7 +18,7 @@ theorem Fr.advanceHeadFront : ∀ (fuel : Nat) (heads : List Key), (∀ k ∈ he
   | fuel + 1, heads, hH => by
     unfold CoreVM.advanceHeadFront
     have ih := Fr.advanceHeadFront fuel
-    pres_search (Fr G) (frPO G) (first | fr_leaf | exact Fr.setHeadPos _ _ (by g_mem) | exact Fr.setHeadStatus _ _ (by g_mem) | exact Fr.setFlowStatus _ _ (by g_mem) | exact Fr.abortFlow _ _ _ _ (by g_mem) | exact Fr.finishFlow _ _ _ _ (by g_mem) | (refine Pres.bind_ret (frPO G) (fun nh => ∀ k' ∈ nh, G k'.1) (Fr.slide _ _ _ (by g_mem)) ?_ ?_; (intro s a s' hs k' hk'; rw [slide_keys _ _ _ _ _ _ hs k' hk']; g_mem); (intro nh hnh)) | exact ih _ (by assumption) | (refine Pres.forIn_mem (frPO G) _ _ _ ?_; intro k hk b; have hGk := hH k hk))
+    pres_search (Fr G) (frPO G) (first | fr_leaf | (refine Fr.setHeadPos _ _ ?_; g_mem) | (refine Fr.setHeadStatus _ _ ?_; g_mem) | (refine Fr.setFlowStatus _ _ ?_; g_mem) | (refine Fr.abortFlow _ _ _ _ ?_; g_mem) | (refine Fr.finishFlow _ _ _ _ ?_; g_mem) | (refine Pres.bind_ret (frPO G) (fun nh => ∀ k' ∈ nh, G k'.1) (Fr.slide _ _ _ (by g_mem)) ?_ ?_; (intro s a s' hs k' hk'; rw [slide_keys _ _ _ _ _ _ hs k' hk']; g_mem); (intro nh hnh)) | exact ih _ (by assumption) | (refine Pres.forIn_mem (frPO G) _ _ _ ?_; intro k hk b; have hGk := hH k hk))
 
 end fr
 end NemoVerif.CoreVM
